@@ -20,11 +20,12 @@ import (
 var c05Tables = [][]string{
 	{"/a/:id", "/a/:id/b", "/f/*w", "/s"},
 	{"/*w", "/:p/m"},
+	{"/*w", "/s"},
+	{"/f/:b/*k", "/s/:x"},
 	{"/:a", "/:a/:b", "/x/y"},
 	{"/a/b", "/a/:p", "/a/:p/c", "/ab"},
 	{"/r/x=:p", "/r/x=:p/y", "/r/:q"},
 	{"/a/*w", "/a/b/c", "/a/:p/d"},
-	{"/*w", "/s"},
 	{"/a/:p/:q", "/a/b/:q", "/a/:p/c"},
 	{"/ab/:p", "/a/:p", "/abc"},
 	// tables of router_test.go (shortened)
@@ -61,14 +62,22 @@ func c05Ref(pat, path string) c05Match {
 			}
 			m.names = append(m.names, pat[k+1:e])
 			m.values = append(m.values, path[s:i])
-			m.rank = append(m.rank, 1)
+			if pat[k-1] == '/' && len(m.rank) > 0 {
+				m.rank[len(m.rank)-1] = 1 // the segment opened by that '/' is a parameter, not a literal
+			} else {
+				m.rank = append(m.rank, 1)
+			}
 			k = e
 			continue
 		}
 		if c == '*' && k > 0 && pat[k-1] == '/' {
 			m.names = append(m.names, pat[k+1:])
 			m.values = append(m.values, path[i:])
-			m.rank = append(m.rank, 2)
+			if len(m.rank) > 0 {
+				m.rank[len(m.rank)-1] = 2 // the segment opened by that '/' is the wildcard
+			} else {
+				m.rank = append(m.rank, 2)
+			}
 			m.ok = true
 			return m
 		}
